@@ -388,6 +388,15 @@ def judge(case, reports, add, stats):
             f"(options {case.get('opts')})")
     elif r.get("timed_out"):
         classes.append("outcome:timeout")
+    elif isinstance(r.get("returncode"), int) and r["returncode"] < 0:
+        # the process was killed by a signal raised in native code (seen:
+        # SIGSEGV inside torch under full load in the thorough tier): not
+        # attributable to the property, counted as inconclusive
+        classes.append("outcome:killed-by-signal:%d" % -r["returncode"])
+        stats.inconclusive += 1
+        stats.extra.setdefault("killed_by_signal", []).append(
+            {"opts": case.get("opts"), "signal": -r["returncode"],
+             "where": (r.get("log_tail") or "")[-300:]})
     else:
         classes.append("outcome:" + str(status))
         add("run-died:%s" % status, f"return code {r.get('returncode')}; "
